@@ -17,6 +17,7 @@ import (
 	"bufio"
 	"errors"
 	"fmt"
+	"math/big"
 	"strconv"
 	"strings"
 
@@ -291,7 +292,22 @@ func c12LabRows(out *bufio.Writer, lab *Lab, cases []*LabCase, docs map[string][
 		stats["cases"]++
 		fmt.Fprintf(out, "defschemas %s.js %s\tok\tok\n", c.ID, virSchemas(irJS))
 		jsText, oaText := c.EmittedJSONSchema(), c.EmittedOpenAPI()
-		fmt.Fprintf(out, "jsemit %s.js %s js\tok %s\t%s\n", c.ID, c.ID, c12Compact(jsText), c12VerdictJSONSchema(irJS, schema, jsText, true))
+		vjs := c12VerdictJSONSchema(irJS, schema, jsText, true)
+		if em, err := parseJV(jsText); err == nil {
+			if ed, ok := c12Definitions(em, false); ok {
+				if sf := c12SourceCarried(c.Defs, ed); len(sf) > 0 {
+					for i := range sf {
+						sf[i] += " format=" + c.Format + " case=" + c.ID
+					}
+					if vjs == "ok" || !strings.HasPrefix(vjs, "FAIL ") {
+						vjs = "FAIL " + strings.Join(sf, " ;; ")
+					} else {
+						vjs += " ;; " + strings.Join(sf, " ;; ")
+					}
+				}
+			}
+		}
+		fmt.Fprintf(out, "jsemit %s.js %s js\tok %s\t%s\n", c.ID, c.ID, c12Compact(jsText), vjs)
 		fmt.Fprintf(out, "jsemit %s.js %s oa\tok %s\t%s\n", c.ID, c.ID, c12Compact(oaText), c12VerdictOpenAPI(irJS, schema, oaText, true))
 		emitted, _ := parseJV(jsText)
 		refsOK := len(c12Unresolved(emitted, false)) == 0
@@ -515,6 +531,112 @@ func c12PathToPointer(path string) string {
 	return b.String()
 }
 
+// ---- source term vs emitted document (exact number text) ----------------------------------------
+
+// c12SourceCarried compares the defaults, constants and enumeration members of the SOURCE term with the
+// emitted JSON Schema, number by number on their exact decimal text (canonJSON: big.Rat, never float64).
+// Unions are not descended into (their emitted shape depends on the chain); everything else is.
+func c12SourceCarried(d *Defs, emittedDefs JV) []string {
+	var fails []string
+	fail := func(format string, args ...any) {
+		if len(fails) < 6 {
+			fails = append(fails, fmt.Sprintf(format, args...))
+		}
+	}
+	same := func(a, b JV) bool { return canonJSON([]byte(a.json())) == canonJSON([]byte(b.json())) }
+	// cause of a difference between two numbers (or lists of numbers), when it is a recognisable one
+	var cause func(src, em JV) string
+	cause = func(src, em JV) string {
+		if src.K == 'a' && em.K == 'a' && len(src.A) == len(em.A) {
+			for i := range src.A {
+				if !same(src.A[i], em.A[i]) {
+					return cause(src.A[i], em.A[i])
+				}
+			}
+		}
+		if src.K == 'n' && em.K == 'n' {
+			// (the exact value of the nearest float64, or its shortest decimal spelling)
+			if f, err := strconv.ParseFloat(src.S, 64); err == nil && (canonNumber(new(big.Float).SetFloat64(f).Text('f', 0)) == canonNumber(em.S) ||
+				canonNumber(strconv.FormatFloat(f, 'f', -1, 64)) == canonNumber(em.S)) {
+				return " cause=float64-rounding"
+			}
+			if canonNumber("-"+strings.TrimPrefix(src.S, "-")) == canonNumber(src.S) && canonNumber(strings.TrimPrefix(src.S, "-")) == canonNumber(em.S) {
+				return " cause=sign-lost"
+			}
+		}
+		return " cause=?"
+	}
+	var walk func(s *Src, node JV, at string, depth int)
+	walk = func(s *Src, node JV, at string, depth int) {
+		if s == nil || node.K != 'o' || depth > 12 {
+			return
+		}
+		if _, isUnion := node.get("anyOf"); isUnion {
+			return // nullable-with-null-branch / union shapes: not compared
+		}
+		switch s.Kind {
+		case SConst:
+			if c, ok := node.get("const"); ok {
+				if !same(c, s.Const) {
+					fail("source-const-differs at=%s source=%s emitted=%s%s", at, s.Const.json(), c.json(), cause(s.Const, c))
+				}
+			} else if e, ok := node.get("enum"); ok && e.K == 'a' && len(e.A) == 1 {
+				if !same(e.A[0], s.Const) {
+					fail("source-const-differs at=%s source=%s emitted=%s%s", at, s.Const.json(), e.A[0].json(), cause(s.Const, e.A[0]))
+				}
+			}
+		case SEnumI, SEnumS:
+			want := jArr()
+			for _, v := range s.EnumI {
+				want.A = append(want.A, jInt(v))
+			}
+			for _, v := range s.EnumS {
+				want.A = append(want.A, jStr(v))
+			}
+			if e, ok := node.get("enum"); ok {
+				if !same(e, want) {
+					fail("source-enum-differs at=%s source=%s emitted=%s%s", at, want.json(), e.json(), cause(want, e))
+				}
+			} else if c, ok := node.get("const"); ok && len(want.A) == 1 {
+				if !same(c, want.A[0]) {
+					fail("source-enum-differs at=%s source=%s emitted=%s%s", at, want.json(), c.json(), cause(want.A[0], c))
+				}
+			}
+		case SArray:
+			if it, ok := node.get("items"); ok {
+				walk(s.Elem, it, at+"[]", depth+1)
+			}
+		case SDict:
+			if it, ok := node.get("additionalProperties"); ok {
+				walk(s.Elem, it, at+"{}", depth+1)
+			}
+		case SStruct:
+			props, _ := node.get("properties")
+			for _, f := range s.Fields {
+				p, ok := props.get(f.Name)
+				if !ok {
+					continue // presence is the business of the IR-level oracle
+				}
+				if f.Default != nil {
+					// an ABSENT default is not reported here: whether the front-end keeps a default (on nullable
+					// members, unions, …) is C10's question, and a default the IR has but the emitter drops is
+					// reported by the IR-level oracle (default-dropped); a default that IS written must be the source's
+					if dv, ok := p.get("default"); ok && !same(dv, *f.Default) {
+						fail("source-default-differs at=%s.%s source=%s emitted=%s%s", at, f.Name, f.Default.json(), dv.json(), cause(*f.Default, dv))
+					}
+				}
+				walk(f.Ty, p, at+"."+f.Name, depth+1)
+			}
+		}
+	}
+	for _, it := range d.Items {
+		if node, ok := emittedDefs.get(it.Name); ok {
+			walk(it.Ty, node, it.Name, 0)
+		}
+	}
+	return fails
+}
+
 // ---- inferred entry points -----------------------------------------------------------------------
 
 // c12RenameDef returns a copy of d in which definition `old` (and every reference to it) is called `name`.
@@ -691,6 +813,17 @@ func c12BoundaryDefs(seed uint64, index int) *Defs {
 			}
 			return srcBool(), jvp(jBool(false))
 		},
+		func() (*Src, *JV) { // integers no float64 holds exactly: enumeration members, constants, defaults
+			big := []int64{9007199254740993, -9007199254740993, 4611686018427387905, 9223372036854775807, 9007199254740995, 1152921504606846977}
+			v := big[r.intn(len(big))]
+			switch r.intn(3) {
+			case 0:
+				return srcEnumI(v, int64(r.intn(3))), nil
+			case 1:
+				return srcConst(jInt(v)), nil
+			}
+			return srcInt(64, true, nil, nil), jvp(jInt(v))
+		},
 		func() (*Src, *JV) { return srcArray(srcStringLen(nil, i64p(int64(r.intn(2))))), nil },
 		func() (*Src, *JV) { return srcDict(srcInt(64, true, i64p(0), i64p(0))), nil },
 	)
@@ -726,6 +859,10 @@ var c12LabPinned = []struct {
 		[]string{`{"s":"abc"}`, `{}`}, [][3]string{{"minLength-1", "$.s", `{"s":"ab"}`}, {"maxLength+1", "$.t", `{"t":"abc"}`}}},
 	{"uintrange", `(defs "R" ("R" (struct (field "n" (int 64 true 0 1) true false -))))`,
 		[]string{`{"n":0}`, `{"n":1}`}, [][3]string{{"min-1", "$.n", `{"n":-1}`}, {"max+1", "$.n", `{"n":2}`}}},
+	{"cueintdefault", `(defs "R" ("R" (struct (field "n" (int 64 true 0 64) false false (n "0")))))`,
+		[]string{`{"n":3}`, `{}`}, [][3]string{{"min-1", "$.n", `{"n":-1}`}, {"max+1", "$.n", `{"n":65}`}}},
+	{"bigint", `(defs "R" ("R" (struct (field "c" (const (n "9007199254740993")) true false -) (field "e" (enumI 4611686018427387905 1) true false -) (field "d" (int 64 true - -) false false (n "-9007199254740993")))))`,
+		[]string{`{"c":9007199254740993,"e":4611686018427387905}`, `{"c":9007199254740993,"e":1,"d":5}`}, nil},
 	{"lenzero", `(defs "R" ("R" (struct (field "e" (string - 0 false) true false -) (field "z" (string 0 - false) true false -))))`,
 		[]string{`{"e":"","z":""}`}, [][3]string{{"maxLength+1", "$.e", `{"e":"x","z":""}`}}},
 	{"plain", `(defs "R" ("R" (struct (field "s" (string 1 5 false) true false -) (field "k" (ref "E") false false -) (field "l" (array (int 64 true 0 9)) true false -))) ("E" (enumS "a" "b")))`,
